@@ -5,10 +5,11 @@ use crate::val::E;
 
 /// single-input operators that have an exact list model
 pub fn list_ops(full: bool) -> Vec<Op1> {
-  let counts: Vec<usize> = if full { vec![0, 1, 2, 3, 5, usize::MAX] } else { vec![1, 2] };
+  // (1 << 32: a count that does not fit a narrower counter)
+  let counts: Vec<usize> = if full { vec![0, 1, 2, 3, 5, 1usize << 32, usize::MAX] } else { vec![1, 2] };
   let preds: Vec<P> = if full { P::ALL.to_vec() } else { vec![P::Lt2] };
   let keys: Vec<K> = if full { K::ALL.to_vec() } else { vec![K::Mod2] };
-  let mut v = vec![Op1::Map, Op1::MapTo(7), Op1::Tap];
+  let mut v = vec![Op1::Map, Op1::MapTo(7), Op1::Tap, Op1::Timestamp];
   for p in &preds {
     v.push(Op1::Filter(*p));
   }
@@ -29,7 +30,7 @@ pub fn list_ops(full: bool) -> Vec<Op1> {
     v.push(Op1::SkipLast(*n));
   }
   v.extend([Op1::First, Op1::FirstOr(9), Op1::Last, Op1::LastOr(9)]);
-  for k in if full { vec![0, 1, 2, 4, usize::MAX] } else { vec![1] } {
+  for k in if full { vec![0, 1, 2, 4, 1usize << 32, usize::MAX] } else { vec![1] } {
     v.push(Op1::ElementAt(k));
   }
   v.push(Op1::IgnoreElements);
